@@ -18,7 +18,7 @@ for id in $ids; do
   git -C "$SRC" checkout -q -- . 2>/dev/null
   if ! git -C "$SRC" apply "$V/seeded/$id/patch.diff" 2>/dev/null; then echo "$id: patch does not apply (tree has moved on)"; continue; fi
   for p in $props; do
-    out=$(./check $p --tier quick 2>&1); rc=$?
+    out=$(timeout ${MUT_TIMEOUT:-2700} ./check $p --tier quick 2>&1); rc=$?   # a seeded change can make the library spin: never wait for ever
     v=$(echo "$out" | grep -c "^VIOLATION")
     nf=$(echo "$out" | grep -c "no-failing-input-found")
     echo "$id check=$p rc=$rc violations=$v no-failing-input=$nf :: $(echo "$out" | grep -E "^VIOLATION" | head -2 | sed 's/replay=.*replays.//' | tr '\n' ' ') $(echo "$out" | grep "broken:" | head -2 | cut -c1-120 | tr '\n' ' ')" | tee -a mutant_results/summary.txt
